@@ -75,7 +75,7 @@ def make_query(it: Interp, model: Model, env: Inst, singular: bool) -> Inst:
     return q
 
 
-def make_arg(it: Interp, model: Model, env: Inst, cls_: str) -> Inst:
+def make_arg(it: Interp, model: Model, env: Inst, cls_: str, call_name: Any = None) -> Inst:
     tok = it.new_opaque("tok", model.cls("tokens.Token"))
 
     def inst(cname_: str, **attrs: Any) -> Inst:
@@ -104,7 +104,7 @@ def make_arg(it: Interp, model: Model, env: Inst, cls_: str) -> Inst:
     if cls_ == "negation":
         return inst("PrefixExpression", operator=Const("!"), right=q1)
     ret = cls_.split("->")[1]
-    name = f"g_{ret.lower()}"
+    name = call_name or f"g_{ret.lower()}"
     register(it, env, name, probe_function(it, model, [], ret, []))
     return inst("FunctionExtension", name=Const(name), args=it.new_list([]))
 
@@ -115,19 +115,31 @@ def check_typing_table(model: Model, report: Report, rule: str, rule_arity: str)
     if fn is None:
         raise AnalysisError("anchor vanished: JSONPathEnvironment.check_well_typedness")
     FIRST = {"after-VALUE": ("VALUE", "literal:int"), "after-LOGICAL": ("LOGICAL", "comparison"), "after-NODES": ("NODES", "query:relative:non-singular")}
-    for param, arg, pos in [(p, a, q) for p in TYPES for a in ARG_CLASSES for q in ("only", "after-VALUE", "after-LOGICAL", "after-NODES")]:
+    # the registry is arbitrary (C05 quantifies over any set of registered functions): a nested call is also
+    # typed when the function it names has replaced a standard function of another result type
+    std_names: List[str] = []
+
+    def names_body(it: Interp) -> Any:
+        return real_env(it, model).attrs["function_extensions"]
+
+    for run in paths(model, names_body):
+        if run.kind != "raise":
+            std_names = sorted(str(k.value) for k in run.value.keys_av.values() if isinstance(k, Const))
+    cells = [(p, a, q, None) for p in TYPES for a in ARG_CLASSES for q in ("only", "after-VALUE", "after-LOGICAL", "after-NODES")]
+    cells += [(p, a, "only", nm) for p in TYPES for a in ARG_CLASSES if a.startswith("call->") for nm in std_names]
+    for param, arg, pos, call_name in cells:
         if True:
 
-            def body(it: Interp, param=param, arg=arg, pos=pos) -> Any:
+            def body(it: Interp, param=param, arg=arg, pos=pos, call_name=call_name) -> Any:
                 env = real_env(it, model)
                 f = probe_function(it, model, [param] if pos == "only" else [FIRST[pos][0], param], "LOGICAL", [])
                 register(it, env, "f", f)
                 tok = make_token(it, model, "FUNCTION", Const("f"), "ftok")
-                a = make_arg(it, model, env, arg)
+                a = make_arg(it, model, env, arg, call_name)
                 args = [a] if pos == "only" else [make_arg(it, model, env, FIRST[pos][1]), a]
                 return it.call_function(fn, [env, tok, f, it.new_list(args)], {}, None, self_av=env)
 
-            key = f"typing:{param}Type<-{arg}" + ("" if pos == "only" else f":second-parameter-{pos}")
+            key = f"typing:{param}Type<-{arg}" + ("" if pos == "only" else f":second-parameter-{pos}") + (f":registered-as-{call_name}" if call_name else "")
             try:
                 runs = paths(model, body)
             except Unsupported as err:
@@ -197,7 +209,13 @@ def operand_tokens(it: Interp, model: Model, kind: str, q: Any, n: int) -> List[
     if kind == "non-singular-query":
         return [T("CURRENT", "@", "cur"), T("WILD", "*", "wild")]
     ret = kind.split("->")[1]
-    return [T("FUNCTION", f"f_{ret.lower()}", "func"), T("RPAREN", ")", "rp")]
+    fname = NAME_OVERRIDE[0] if NAME_OVERRIDE and NAME_OVERRIDE[1] == ret else f"f_{ret.lower()}"
+    return [T("FUNCTION", fname, "func"), T("RPAREN", ")", "rp")]
+
+
+# (name, result type): the zero-parameter probe of that result type is registered under `name`, replacing
+# whatever the environment registered there (C05 quantifies over arbitrary registries)
+NAME_OVERRIDE: Optional[Tuple[str, str]] = None
 
 
 def testable(kind: str) -> bool:
@@ -218,6 +236,8 @@ def parse_filter(model: Model, shape_tokens, limit: int = 4000) -> List[Any]:
         env = real_env(it, model)
         for ret in TYPES:
             register(it, env, f"f_{ret.lower()}", probe_function(it, model, [], ret, []))
+        if NAME_OVERRIDE:
+            register(it, env, NAME_OVERRIDE[0], probe_function(it, model, [], NAME_OVERRIDE[1], []))
         parser = env.attrs["parser"]
         q = it.new_str("query")
         toks = [make_token(it, model, "FILTER", Const("?"), "filter", q)] + shape_tokens(it, q)
@@ -293,6 +313,32 @@ def check_positions(model: Model, report: Report, rule: str) -> None:
             if runs is not None:
                 txt = f"?{TEXT[k]} == 1" if side == "left" else f"?1 == {TEXT[k]}"
                 judge_parse(report, rule, site, key, runs, comparable(k), txt, "a comparison of comparables" if comparable(k) else "ill-typed: comparands must be literals, singular queries or ValueType results")
+    # the same positions when the called function has replaced a standard function of another result type
+    global NAME_OVERRIDE
+    std_names: List[str] = []
+    for run in paths(model, lambda it: real_env(it, model).attrs["function_extensions"]):
+        if run.kind != "raise":
+            std_names = sorted(str(k.value) for k in run.value.keys_av.values() if isinstance(k, Const))
+    for nm in std_names:
+        for ret in TYPES:
+            k = f"call->{ret}"
+            NAME_OVERRIDE = (nm, ret)
+            try:
+                key = f"position:test:{k}:registered-as-{nm}"
+                runs = _try(report, rule, site, key, lambda: parse_filter(model, lambda it, q, k=k: operand_tokens(it, model, k, q, 0)))
+                if runs is not None:
+                    judge_parse(report, rule, site, key, runs, testable(k), f"?{nm}()", "well-typed as a test" if testable(k) else "not usable as a test (ValueType result must be compared)")
+
+                def toks2b(it: Interp, q: Any, k=k) -> List[Inst]:
+                    return operand_tokens(it, model, k, q, 0) + [T(it, q, "EQ", "==", "op")] + operand_tokens(it, model, "literal", q, 1)
+
+                key = f"position:compare-left:{k}:registered-as-{nm}"
+                runs = _try(report, rule, site, key, lambda: parse_filter(model, toks2b))
+                if runs is not None:
+                    judge_parse(report, rule, site, key, runs, comparable(k), f"?{nm}() == 1", "a comparison of comparables" if comparable(k) else "ill-typed: only ValueType results are compared")
+            finally:
+                NAME_OVERRIDE = None
+
     # unknown function name
     def toks3(it: Interp, q: Any) -> List[Inst]:
         return [T(it, q, "FUNCTION", "nosuch", "func"), T(it, q, "RPAREN", ")", "rp")]
@@ -321,7 +367,7 @@ def _try(report: Report, rule: str, site: Any, key: str, f: Any) -> Optional[Lis
 
 
 # ------------------------------------------------------------ singular query
-def check_singular(model: Model, report: Report, rule: str) -> None:
+def check_singular(model: Model, report: Report, rule: str, only: Any = None) -> None:
     qci = model.cls("query.JSONPathQuery")
     fn = qci.find_method("singular_query")
     if fn is None:
@@ -338,6 +384,8 @@ def check_singular(model: Model, report: Report, rule: str) -> None:
     shapes.append(("$[name]..[name]", [("child", ["name"]), ("desc", ["name"])], False))
     shapes.append(("$[]", [("child", [])], False))
     for text, segs, want in shapes:
+        if only is not None and want is not only:
+            continue
 
         def body(it: Interp, segs=segs) -> Any:
             env = it.new_inst(model.cls("environment.JSONPathEnvironment"), "env")
@@ -348,6 +396,10 @@ def check_singular(model: Model, report: Report, rule: str) -> None:
                 for s in sels:
                     x = it.new_inst(model.cls("selectors." + SEL[s]), s)
                     x.attrs.update({"env": env, "token": tok})
+                    if s == "index":
+                        x.attrs["index"] = it.new_int("index")
+                    elif s == "name":
+                        x.attrs["name"] = it.new_str("name")
                     sel_insts.append(x)
                 seg = it.new_inst(model.cls("segments." + ("JSONPathChildSegment" if kind == "child" else "JSONPathRecursiveDescentSegment")), kind)
                 seg.attrs.update({"env": env, "token": tok, "selectors": PyTuple(sel_insts)})
